@@ -267,6 +267,15 @@ def gen_circ_case(rng, nvar=None, coding_p=0.7, n_circ=None):
                 kind, _, _ = CG.map_record(gene, t, gs, gs + len(ref))
                 if kind != 'outside':
                     rows.append([gene['id'], gs + 1, CG.var_id(gs, ref, alt), ref, alt, t['id'], gene['name']])
+        nindel = len(set(r[2] for r in rows if len(r[3]) != len(r[4])))
+        def dense(r):
+            Lc = sum(b - a for a, b in r['frags'])
+            inside = len(set(row[2] for row in rows if any(a <= row[1] - 1 < b for a, b in r['frags'])))
+            return inside > max(2, Lc // 15) or (nindel >= 2 and Lc < 60)
+        if any(dense(r) for r in recs):
+            continue      # a tiny circle dense with records: the engine's four-copy graph explodes (19-nt circle with 2
+                          # deletions: 130 s; 15-nt circle with 5 records: > 11 min, 2.6 GB, even with
+                          # --max-variants-per-node 7): at most max(2, L/15) records inside a circle; not a property matter
         return {'world': world, 'gvf': rows, 'gene': gene['id'], 'target': tx['id'],
                 'tag': 'circ:%d' % len(recs), 'circ_records': recs}
     raise RuntimeError('circRNA generator failed')
@@ -294,3 +303,183 @@ def circ_inputs(case, tx_id, run, prots=None):
                     (run['exc'] if run['exc'] != 'None' else None), [run['k'], run['mw4'], run['min_len'], run['max_len']],
                     prots if prots is not None else CG.proteome(world)])
     return out
+
+# ------------------------------------------------------------------ designed geometries (round-3 seeds C01-7, C02-7, C02-8, C05-6)
+def _rows_for(gene, recs):
+    rows = []
+    for gs, ref, alt in sorted(set(recs)):
+        for t in gene['transcripts']:
+            kind, _, _ = CG.map_record(gene, t, gs, gs + len(ref))
+            if kind != 'outside':
+                rows.append([gene['id'], gs + 1, CG.var_id(gs, ref, alt), ref, alt, t['id'], gene['name']])
+    return rows
+
+def gen_as_design_case(rng, mode=None, coding_p=0.85):
+    """ONE <INS>/<SUB> record on a multi-exon transcript with small records placed by design:
+      shift     a frameshifting insertion / deletion strictly INSIDE the donor segment + a record on the transcript
+                3-20 nt behind the event (read in the shifted frame) + sometimes one in front of it
+      straddle  the donor segment is a proper piece of an intron; a 2-5 base deletion / MNV starts inside the donor
+                segment and runs past its end (or starts in front of it and runs into it), staying intronic: it
+                cannot be applied to the inserted piece; no other record inside the donor segment
+      abut      records on the first / last base of the donor segment, and directly behind / in front of it
+    """
+    mode = mode or rng.choice(['shift', 'shift', 'straddle', 'straddle', 'abut'])
+    for _ in range(600):
+        world = G.gen_world(rng, n_chrom=1, max_genes=2, coding_p=coding_p, small=True, sec_p=0.1, nf_p=0.1)
+        cands = [(g, t) for g in world['genes'] for t in g['transcripts'] if len(t['exons']) >= 2 and G.tx_len(t) >= 50]
+        if not cands:
+            continue
+        gene, tx = rng.choice(cands)
+        evs = [e for e in _as_candidates(rng, world, gene, tx) if e['kind'] != 'DEL' and e['de'] - e['ds'] >= 4]
+        if tx['cds']:
+            evs = [e for e in evs if tx['cds'][0] + 6 <= e['a'] <= tx['cds'][1] + 3] or evs
+        if mode == 'straddle':
+            ex = tx_exons(gene, tx)
+            intr = [(ex[i][1], ex[i + 1][0]) for i in range(len(ex) - 1)]
+            def room(e):
+                s, t_ = next((s, t_) for s, t_ in intr if s <= e['ds'] and e['de'] <= t_)
+                return (t_ - e['de'] >= 4) or (e['ds'] - s >= 4)
+            evs = [e for e in evs if e['kind'] == 'INS' and any(s <= e['ds'] and e['de'] <= t_ for s, t_ in intr) and room(e)]
+        if not evs:
+            continue
+        e = rng.choice(evs)
+        gseq = G.gene_seq(world, gene)
+        L = G.tx_len(tx)
+        recs = []
+        if mode == 'shift':
+            if e['de'] - e['ds'] < 5:
+                continue
+            gs = rng.randint(e['ds'] + 1, e['de'] - 3)
+            if rng.random() < 0.5:
+                recs.append((gs, gseq[gs], gseq[gs] + ''.join(rng.choice(NT) for _ in range(rng.choice([1, 1, 2, 4])))))
+            else:
+                k = rng.choice([1, 1, 2]) if gs + 3 < e['de'] else 1
+                recs.append((gs, gseq[gs:gs + 1 + k], gseq[gs]))
+            for _k in range(rng.choice([1, 1, 2])):                       # behind the event, in the shifted frame
+                tp = e['b'] + rng.randint(2, 20)
+                if tp < L - 2:
+                    g2 = tx2gene(gene, tx, tp)
+                    recs.append((g2, gseq[g2], CG._mut_base(rng, gseq[g2])))
+            if rng.random() < 0.4 and e['a'] - 8 > 3:
+                g2 = tx2gene(gene, tx, e['a'] - rng.randint(3, 8))
+                recs.append((g2, gseq[g2], CG._mut_base(rng, gseq[g2])))
+            if rng.random() < 0.3:                                         # a second, in-frame-restoring record in the donor
+                g3 = rng.randint(e['ds'] + 1, e['de'] - 2)
+                recs.append((g3, gseq[g3], CG._mut_base(rng, gseq[g3])))
+        elif mode == 'straddle':
+            ex = tx_exons(gene, tx)
+            s, t_ = next((s, t_) for s, t_ in ((ex[i][1], ex[i + 1][0]) for i in range(len(ex) - 1)) if s <= e['ds'] and e['de'] <= t_)
+            opts = []
+            if t_ - e['de'] >= 4:
+                opts.append('end')
+            if e['ds'] - s >= 4:
+                opts.append('start')
+            side = rng.choice(opts)
+            k = rng.choice([2, 3, 4])
+            if side == 'end':
+                gs = e['de'] - rng.randint(1, min(k, e['de'] - e['ds'] - 1))       # starts inside, ends behind de
+                if gs + k + 1 > t_ or gs + k + 1 <= e['de']:
+                    k = e['de'] - gs + 1
+                    if gs + k + 1 > t_:
+                        continue
+            else:
+                gs = e['ds'] - rng.randint(1, k)                                   # starts in front of ds, ends inside
+                if gs < s or gs + k + 1 <= e['ds']:
+                    continue
+            if rng.random() < 0.7:
+                recs.append((gs, gseq[gs:gs + 1 + k], gseq[gs]))                   # deletion
+            else:
+                r = gseq[gs:gs + 1 + k]
+                recs.append((gs, r, ''.join(CG._mut_base(rng, ch) for ch in r)))   # MNV
+            for _k in range(rng.choice([0, 1, 1])):
+                tp = e['b'] + rng.randint(1, 12)
+                if tp < L - 2:
+                    g2 = tx2gene(gene, tx, tp)
+                    recs.append((g2, gseq[g2], CG._mut_base(rng, gseq[g2])))
+        else:
+            for gs in rng.sample([e['ds'], e['de'] - 1, e['de'], e['ds'] - 1], rng.choice([1, 2, 2, 3])):
+                if 0 <= gs < len(gseq) - 4:
+                    ref, alt = _small(rng, gseq, gs)
+                    recs.append((gs, ref, alt))
+        recs = [r for r in recs if r[1] and r[1] != r[2] and r[0] + len(r[1]) <= len(gseq)]
+        if not recs:
+            continue
+        return {'world': world, 'gvf': _rows_for(gene, recs), 'gene': gene['id'], 'target': tx['id'],
+                'tag': 'asd:%s:%s' % (mode, e['kind']), 'as_records': [dict(e, tx=tx['id'], row=_as_row(world, gene, tx, e))],
+                'donor_records': True, 'design': mode}
+    raise RuntimeError('AS design generator failed')
+
+_NOSTOP_NOM = 'ACDEFGHIKLNPQRSTVWYKRKR'
+
+def gen_circ_design_case(rng, mode=None):
+    """circRNA whose circle sequence is WRITTEN into consecutive exons of a non-coding gene:
+      onlyatg   the circle holds exactly ONE ATG (also across the back-splice junction), in 70 % directly behind a
+                K/R codon (the cleavage-graph node begins with M), no stop codon in its frame: translation passes the
+                site again in every turn; an SNV on the A / T / G of that ATG, in 40 % a second allele on the same base
+      starts    1-3 ATG codons behind K/R codons; SNVs on the bases of the start codons and two alleles at one site
+                downstream of a start
+    plus, in half of the onlyatg cases, an SNV elsewhere in the circle"""
+    import re as _re
+    mode = mode or rng.choice(['onlyatg', 'onlyatg', 'starts'])
+    for _ in range(800):
+        world = G.gen_world(rng, n_chrom=1, max_genes=3, coding_p=0.5, small=True, sec_p=0.0, nf_p=0.1)
+        nc = [g for g in world['genes'] if g['biotype'] != 'protein_coding']
+        if not nc or len(nc) == len(world['genes']):
+            continue
+        gene = rng.choice(nc)
+        tx = rng.choice(gene['transcripts'])
+        ex = tx_exons(gene, tx)
+        i = rng.randrange(len(ex)); j = min(len(ex) - 1, i + rng.choice([0, 0, 1, 2]))
+        frags = [list(f) for f in ex[i:j + 1]]
+        L = sum(b - a for a, b in frags)
+        if L < 24 or L > (75 if mode == 'starts' else 150):
+            continue      # 'starts' circles have no stop codon in the designed frame: kept short (engine time grows with 4 turns x ORFs)
+        if rng.random() < 0.5 and L % 3 and L - (L % 3) >= 24 and len(frags) == 1:
+            pass
+        n = L // 3
+        text = None
+        for _t in range(60):
+            prot = [rng.choice(_NOSTOP_NOM) for _k in range(n)]
+            cod = [rng.choice(G.BACK[a]) for a in prot]
+            qs = sorted(rng.sample(range(2, n - 1), 1 if mode == 'onlyatg' else rng.choice([1, 2, 3]))) if n > 5 else [2]
+            for q in qs:
+                cod[q] = 'ATG'
+                if rng.random() < 0.7:
+                    cod[q - 1] = rng.choice(G.BACK[rng.choice('KR')])
+            s = ''.join(cod) + ''.join(rng.choice('CT') for _k in range(L % 3))
+            cnt = len(_re.findall('(?=ATG)', s + s[:2]))
+            if (mode == 'onlyatg' and cnt == 1) or (mode != 'onlyatg' and cnt >= len(qs)):
+                text = s; break
+        if text is None:
+            continue
+        offs = [0]
+        for a, b in ex:
+            offs.append(offs[-1] + (b - a))
+        chrom = list(world['chroms'][gene['chrom']])
+        G._write_into(chrom, gene, tx['exons'], offs[i], text)
+        world['chroms'][gene['chrom']] = ''.join(chrom)
+        gseq = G.gene_seq(world, gene)
+        assert ''.join(gseq[a:b] for a, b in frags) == text
+        pos = [g for a, b in frags for g in range(a, b)]                  # circle index -> gene coordinate
+        recs = []
+        q = rng.choice(qs)
+        base = rng.choice([0, 0, 0, 1, 2]) if mode == 'onlyatg' else rng.choice([0, 1, 2])
+        g0 = pos[3 * q + base]
+        alts = rng.sample([c for c in NT if c != gseq[g0]], 2 if rng.random() < 0.4 else 1)
+        recs += [(g0, gseq[g0], a) for a in alts]
+        if mode != 'onlyatg':
+            k = (3 * q + rng.randint(4, 30)) % L                          # two alleles at one site behind a start
+            g1 = pos[k]
+            for a in rng.sample([c for c in NT if c != gseq[g1]], 2):
+                recs.append((g1, gseq[g1], a))
+        if rng.random() < 0.5 and mode == 'onlyatg':
+            g2 = pos[rng.randrange(L)]
+            recs.append((g2, gseq[g2], CG._mut_base(rng, gseq[g2])))
+        start = frags[0][0]
+        cid = 'CIRC-%s-%d:%d' % (tx['id'], frags[0][0], frags[-1][1])
+        rec = {'tx': tx['id'], 'frags': frags,
+               'row': dict(gene_id=gene['id'], start=start, id=cid, offsets=[a - start for a, _ in frags],
+                           lengths=[b - a for a, b in frags], introns=[], tx_id=tx['id'], gene_name=gene['name'])}
+        return {'world': world, 'gvf': _rows_for(gene, recs), 'gene': gene['id'], 'target': tx['id'],
+                'tag': 'circd:%s' % mode, 'circ_records': [rec], 'design': mode}
+    raise RuntimeError('circRNA design generator failed')
